@@ -159,4 +159,20 @@ theorem map_subst_of_closed (σ : Subst) (as : List Hint) (h : ∀ a ∈ as, a.t
     simp only [List.map_cons]
     rw [Hint.subst_of_closed σ a (h a (by simp)), ih (fun b hb => h b (by simp [hb]))]
 
+/-- the binding built for a bare class, `params.zip (params.map f)`, sends every parameter to its own image -/
+theorem lookup_zip_map_self (ps : List TVar) (f : TVar → Hint) (v : TVar) (h : v ∈ ps) :
+    (ps.zip (ps.map f)).lookup v = some (f v) := by
+  induction ps with
+  | nil => cases h
+  | cons p ps ih =>
+    simp only [List.map_cons, List.zip_cons_cons, List.lookup_cons]
+    by_cases hpv : v = p
+    · subst hpv; simp
+    · have hmem : v ∈ ps := by
+        rcases List.mem_cons.mp h with h | h
+        · exact absurd h hpv
+        · exact h
+      have hb : (v == p) = false := by simpa using hpv
+      rw [hb]; exact ih hmem
+
 end Adaptix.Generic
